@@ -585,16 +585,36 @@ func buildResourceTrafficShapingController(res string, rulesOfRes []*Rule, oldRe
 	// their own ID are served first: a rule that differs from another one only in its ID must not be
 	// given that one's state (and leave its own behind) just because it is listed earlier.
 	equalOf := make([]*TrafficShapingController, len(rulesOfRes))
+	// An ID says which old rule a new one continues. IDs that occur in both lists are spoken for: the
+	// rule with that ID keeps that old rule's controller (if it is unchanged) or takes over its statistic
+	// (if it is modified, see keptFor below), and nobody else gets either - not even a rule with the
+	// very same fields. Only rules that continue no old rule by ID are matched by their fields alone.
+	idInOld := make(map[string]bool, len(oldResTcs))
+	for _, oldTc := range oldResTcs {
+		idInOld[oldTc.BoundRule().ID] = true
+	}
+	spokenFor := make(map[string]bool, len(rulesOfRes))
+	for _, rule := range rulesOfRes {
+		if rule.ID != "" && idInOld[rule.ID] {
+			spokenFor[rule.ID] = true
+		}
+	}
 	for pass := 0; pass < 2; pass++ {
 		for i, rule := range rulesOfRes {
 			if matched[i] {
+				continue
+			}
+			if pass == 1 && spokenFor[rule.ID] {
 				continue
 			}
 			for _, oldTc := range oldResTcs {
 				if reserved[oldTc] || !oldTc.BoundRule().isEqualsTo(rule) {
 					continue
 				}
-				if pass == 0 && (rule.ID == "" || oldTc.BoundRule().ID != rule.ID) {
+				if pass == 0 && oldTc.BoundRule().ID != rule.ID {
+					continue
+				}
+				if pass == 1 && spokenFor[oldTc.BoundRule().ID] {
 					continue
 				}
 				reserved[oldTc] = true
